@@ -87,6 +87,10 @@ Definition run_C20 (i : term) : term :=
     (* a reader sees the file before or after a save (atomic replace), whatever the file is; re-saving
        never removes a config, so every read lists all configs saved before *)
     TL [TZ 1; TZ 0; TZ 0; of_ss (gss (gn i 2)); TL []]
+  else if String.eqb op "web-errors" then
+    (* per-request state only: every page, in every round, shows exactly its own request's messages *)
+    let page := TL (map (fun r => of_ss (web_errors (gz (gn r 1)))) (gl (gn i 2))) in
+    TL (repeat page (Z.to_nat (gz (gn i 1))))
   else if String.eqb op "cow1" then TZ 0   (* lost settings: get's lazy initialisation and update are single sections on one store *)
   else if String.eqb op "cow" then TZ 1
   else TL [TS "unknown-op"].
@@ -117,6 +121,7 @@ Definition spec_C20 (i o : term) : bool :=
   else if String.eqb op "ui-lines" then term_eqb (run_C20 i) o      (* every message a line of its own *)
   else if String.eqb op "ui-fetch" then term_eqb (run_C20 i) o      (* parallel run prints the lines of the one-at-a-time runs *)
   else if String.eqb op "settings-read" then term_eqb (run_C20 i) o (* no page ever loses the saved configs *)
+  else if String.eqb op "web-errors" then term_eqb (run_C20 i) o   (* no page shows another request's messages or misses its own *)
   else if String.eqb op "cow1" then term_eqb (run_C20 i) o       (* a setting made during the first use is never lost *)
   else if String.eqb op "errpaths" then term_eqb (run_C20 i) o   (* rejected like one at a time, nothing blocked, no lock leaked *)
   else if String.eqb op "registry" then term_eqb (run_C20 i) o   (* no registered file leaked, no cleanup failed *)
